@@ -367,10 +367,21 @@ func SyncCommitteeOf(c *common.SyncCommittee) *SyncCommittee {
 
 func u64s(x uint64) string { return fmt.Sprintf("%d", x) }
 
+// ProjectLenient is Project with numbers >= Big clamped to Big instead of failing (states produced from
+// blocks with arbitrary bytes); the second result tells whether anything was clamped.
+func ProjectLenient(spec *common.Spec, state common.BeaconState) (*State, bool, error) {
+	p := &proj{lenient: true}
+	s, err := project(spec, state, p)
+	return s, p.clamped, err
+}
+
 // Project returns the abstract record of a (possibly upgradeable-wrapped) beacon state.
 func Project(spec *common.Spec, state common.BeaconState) (*State, error) {
+	return project(spec, state, &proj{})
+}
+
+func project(spec *common.Spec, state common.BeaconState, p *proj) (*State, error) {
 	state = Unwrap(state)
-	p := &proj{}
 	s := &State{}
 	switch st := state.(type) {
 	case *phase0.BeaconStateView:
